@@ -205,11 +205,15 @@ TIES = {
     # quads() through a QuadStream), through the translated rdflib flat parser, give back the objects of the statements (no model in the conclusion)
     "rdflib_end_to_end": {"sources": ["pyjelly/integrations/rdflib/serialize.py", "pyjelly/integrations/rdflib/parse.py", "pyjelly/serialize/encode.py",
                                       "pyjelly/parse/decode.py", "pyjelly/serialize/streams.py", "pyjelly/serialize/flows.py"],
-                          "unit": "rdflib_parse", "gen": "RdflibParseGen", "tie": "RdflibEndToEnd", "props": ["C02"],
+                          "unit": "rdflib_parse", "gen": "RdflibParseGen", "tie": "RdflibEndToEnd", "props": ["C02", "C03", "C06", "C14", "C19"],
                           "needs": ["lookup_enc", "lookup_dec", "options", "encode", "encode_stmt", "flows", "streams", "decode", "decoder_base", "decoder", "stmt_layout",
                                     "generic_sink", "generic_parse", "generic_serialize", "generic_round_trip", "rdflib_serialize", "rdflib_drivers", "rdflib_parse",
                                     "rdflib_round_trip"],
-                          "theorems": ["C02_end_to_end_rdflib_graph", "C02_end_to_end_rdflib_dataset_quads"]},
+                          "theorems": ["C02_end_to_end_rdflib_graph", "C02_end_to_end_rdflib_dataset_quads", "C02_end_to_end_rdflib_dataset_graphs", "C14_end_to_end_rdflib_graph",
+                                       "C03_source_rdflib_triples_driver_writes_valid_streams", "C03_source_rdflib_quads_driver_writes_valid_streams",
+                                       "C03_source_rdflib_graphs_driver_writes_valid_streams", "C06_source_rdflib_nothing_left_behind_dataset",
+                                       "C06_source_rdflib_nothing_left_behind_graph", "C19_source_rdflib_triples_driver_audit_clean",
+                                       "C19_source_rdflib_quads_driver_audit_clean"]},
     # C15, serializers, on translated source: the generic triples driver over a sink and the rdflib triples driver over a Graph with the
     # corresponding statements, on streams made from the same options, yield the same list of message objects
     "serializers_agree": {"sources": ["pyjelly/integrations/generic/serialize.py", "pyjelly/integrations/rdflib/serialize.py", "pyjelly/serialize/encode.py",
